@@ -11,12 +11,14 @@ def shape_anchor_gate_authority : Bool := true
 def shape_anchor_gate_validateDelegation : Bool := true
 def shape_bare_denials_go_through_authority : Bool := true
 def shape_cd_fetch_only_before_explicit_validation : Bool := true
+def shape_dname_target_ad_anded_whatever_the_target_carries : Bool := true
 def shape_key_fetch_is_validated : Bool := true
 def shape_root_ds_from_anchors_answer : Bool := true
 def shape_root_ds_from_anchors_authority : Bool := true
 def shape_signer_checked_before_findds_answer : Bool := true
 def shape_signer_checked_before_findds_authority : Bool := true
 def shape_signer_checked_before_findds_validateDelegation : Bool := true
+def shape_soa_beside_ns_goes_through_allowlist : Bool := true
 def shape_validated_denial_keeps_signer_zone_only : Bool := true
 def shape_verifydnssec_anchors_own_dnskey_rrset : Bool := true
 def shape_wildcard_proof_from_filtered_authority : Bool := true
